@@ -22,7 +22,7 @@ PROPERTY = "C16"
 LEVEL = "exploration"
 RULE = (
     "every point of (ABI x clobber subset x clobbers_flags x align_stack x preserve_caller_saved x scratch count x "
-    "reads_registers subset x leaf/non-leaf/no function) is generated through a real RewritingContext and executed on a "
+    "reads_registers subset x leaf / non-leaf / no function / function without calls that leaves through a jump to another function) is generated through a real RewritingContext and executed on a "
     "concrete CPU from every initial SP (pointer-size multiples mod 32); a case is one (configuration, initial SP) pair; "
     "it is non-trivial when code was generated and ran to the end with the marker hit exactly once"
 )
@@ -167,7 +167,7 @@ def _generate(cfgs):
     # the non-leaf targets come first in address order and configurations that differ only in the
     # position share ONE Patch object: whatever the rewriter derives per patch must still be right
     # for every site the patch is inserted at
-    world = World(abi, n_each=max(1, max(per.values())), order=("nonleaf", "leaf", "nofunc"))
+    world = World(abi, n_each=max(1, max(per.values())), order=("nonleaf", "leaf", "nofunc", "tail"))
     used = {w: 0 for w in WHERES}
     patches = []
     shared = {}
@@ -182,6 +182,7 @@ def _generate(cfgs):
         patches.append((p, b))
     world.ctx.apply()
     leaf = world.leaf_table()
+    leaf.pop("tail_fn", None)  # what the library makes of a function that only jumps away is for the red-zone oracle to judge
     if leaf != {"leaf_fn": 1, "nonleaf_fn": 0, "local_callee": 1}:
         raise HarnessError("unexpected leafFunctions table %r" % leaf)
     out = []
@@ -190,7 +191,7 @@ def _generate(cfgs):
         if seen is None:
             raise HarnessError("patch was not invoked")
         fn = seen.function.get_name() if seen.function else None
-        if fn != {"leaf": "leaf_fn", "nonleaf": "nonleaf_fn", "nofunc": None}[c["where"]]:
+        if fn != {"leaf": "leaf_fn", "nonleaf": "nonleaf_fn", "nofunc": None, "tail": "tail_fn"}[c["where"]]:
             raise HarnessError("patch landed in %r, wanted %s" % (fn, c["where"]))
         code, relocs = world.inserted(b)
         out.append((code, relocs, seen.stack_adjustment, [r.name for r in seen.scratch_registers]))
@@ -301,7 +302,7 @@ def _run_one(cfg, gen, sp0, obs):
     above = [(i, a - sp0, s) for i, a, s in m.writes if a + s > sp0]
     if above:
         diffs.append(D("write-at-or-above-sp", r_abi=abi, writes=above[:3], insn=m.prog[above[0][0]].text))
-    if A["red_zone"] and cfg["where"] in ("leaf", "nofunc"):
+    if A["red_zone"] and cfg["where"] in ("leaf", "nofunc", "tail"):
         rz = [(i, a - sp0, s) for i, a, s in m.writes if a < sp0 and a + s > sp0 - A["red_zone"]]
         if rz:
             diffs.append(D("red-zone-write", r_abi=abi, r_features=feat, writes=rz[:3], insn=m.prog[rz[0][0]].text))
